@@ -312,10 +312,11 @@ impl ColumnMetrics {
     {
         let mut end = start;
         while let Some(adv) = self.next_position(text, end) {
-            if pattern[end.byte-start.byte .. adv.byte-start.byte] 
-                != text[end.byte..adv.byte]
-            {
-                break;
+            // The pattern may be shorter than the step, or the step may end
+            // inside one of the pattern's characters; neither is a match.
+            match pattern.get(end.byte-start.byte .. adv.byte-start.byte) {
+                Some(pat) if pat == &text[end.byte..adv.byte] => (),
+                _ => break,
             }
             if adv.byte - start.byte >= pattern.len() {
                 return Some(adv);
